@@ -14,16 +14,19 @@ def format_doc(v, ev):
     doc = open("/repo/FORMAT.md").read()
     listing = re.findall(r"^Off(\d+): \[(\w+) ID (\d+)\]", doc, re.M)
     m = re.search(r"The `offsets` for the file with ID 1 will be ([^.:]*)[.:]", doc)
-    if not listing or not m:
-        raise ToolError("FORMAT.md: the worked example of `offsets` was not found (reworded?)")
+    skipped = not listing or not m
+    if skipped:
+        # the documentation was reworded: nothing to compare (the probe below still reads the example's archive)
+        log("[C06] note: FORMAT.md's worked example of `offsets` was not found in its known wording: the doc comparison is skipped")
+        listing = []
     runs, prev = [], None
     for off, _typ, fid in listing:
         if fid == "1" and prev != "1":
             runs.append(int(off))
         prev = fid
-    stated = [int(x) for x in re.findall(r"Off(\d+)", m.group(1))]
-    ev["format_doc"] = dict(example_blocks=len(listing), run_starts=runs, stated=stated)
-    if stated != runs:
+    stated = [int(x) for x in re.findall(r"Off(\d+)", m.group(1))] if m else []
+    ev["format_doc"] = dict(example_blocks=len(listing), run_starts=runs, stated=stated, skipped=skipped)
+    if not skipped and stated != runs:
         v.violation(dict(check="format-doc", kind="offsets-example-lists-non-run-starts"),
                     dict(engine="doc", run_starts_of_the_example=runs, stated_in_FORMAT_md=stated,
                          note="the reader re-reads a block that is listed although it directly follows a listed one (mbt everyblock)"))
